@@ -110,6 +110,7 @@ class Family:
     prims = ()
     has_phase = True
     CRASH_OK = ()            # exception types that are a normal refusal at the front door
+    NO_SOLUTION = (ValueError,)   # how compute_config reports "no configuration found" after its search
 
     def __init__(self, cls):
         self.cls = cls
@@ -190,6 +191,16 @@ class Family:
     def sound_model(self, pll, req, dec):
         """model against which a returned configuration is verified (default: the declared model)"""
         return self.model(pll, req)
+
+    def ref_search(self, pll, req, tol):
+        """the independent decision procedure for this request: a witness dict or None (default: the generic
+        interval-intersection search over the declared model; families with another structure bring their own)"""
+        return search(self.model(pll, req), tol)
+
+    def ref_verify(self, pll, req, dec, tol):
+        """[(rule, msg)] for a decoded returned configuration"""
+        D, M, ds = dec
+        return verify(self.sound_model(pll, req, dec), D, M, ds, tol)
 
     def decode(self, pll, cfg, req):
         """-> (D, M, [d_n], [(rule, msg)]) from the returned configuration"""
